@@ -184,6 +184,18 @@ def agree_ref(ctx, fi, ref_src, title, what=('return', 'heap', 'substores'), rul
                             construct=ea.text()[:80] + ' [args]')
                 ctx.formula(rule, f'{title}: condition of the {ea.data["name"]} call == reference', fi, ea.cond(), eb.cond(),
                             node=ea.node, construct=ea.text()[:80] + ' [guard]')
+    if 'asserts' in what:
+        aa_ = [e for e in I.events if e.kind == 'assert' and e.func.short == fi.short]
+        ab_ = [e for e in IR.events if e.kind == 'assert']
+        if len(aa_) != len(ab_):
+            ctx.ob(rule, f'{title}: same assertions as the reference', fi, False,
+                   {'code': [e.text()[:80] for e in aa_], 'reference': [e.text()[:80] for e in ab_]}, node=fi.node, construct='assert statements')
+        else:
+            for ea, eb in zip(aa_, ab_):
+                ctx.formula(rule, f'{title}: asserted condition == reference', fi, ea.data['cond'], eb.data['cond'], node=ea.node,
+                            construct=ea.text()[:80] + ' [assert]')
+                ctx.formula(rule, f'{title}: guard of the assertion == reference', fi, ea.cond(), eb.cond(), node=ea.node,
+                            construct=ea.text()[:80] + ' [assert guard]')
     if 'deletes' in what:
         da = [e for e in I.events if e.kind == 'delete' and e.func.short == fi.short]
         db = [e for e in IR.events if e.kind == 'delete']
@@ -219,6 +231,8 @@ def agree_ref(ctx, fi, ref_src, title, what=('return', 'heap', 'substores'), rul
                             node=ea.node, construct=ea.text() + ' [index]')
                 ctx.formula(rule, f'{title}: value of buffer store == reference', fi, ea.data['value'], eb.data['value'],
                             node=ea.node, construct=ea.text() + ' [value]')
+                ctx.formula(rule, f'{title}: condition of the buffer store == reference', fi, ea.cond(), eb.cond(),
+                            node=ea.node, construct=ea.text() + ' [guard]')
     return (r, I), (rr, IR)
 
 
